@@ -14,7 +14,7 @@ BASE = dict(Keys={1, 2}, Sources={0, 1}, FixD6=True, MinOpsToEmit=1)
 
 def cfgc(**kw):
     c = dict(BASE, Nodes={1, 2}, CNodes={1, 2}, F=3, Times={0, 1, 2}, MaxOps=2, MaxDup=0, MaxExch=4, WithBatch=False, WithBulk=False,
-             WithRestart=False, WithPurge=False, WithTracker=False, MaxSkew=2)
+             WithRestart=False, WithPurge=False, WithTracker=False, NoDirect=False, MaxSkew=2)
     c.update(kw)
     return c
 
@@ -32,6 +32,11 @@ EXHAUSTIVE = {
                      ("E7", cfgc(WithTracker=True, MaxExch=6)),                       # the poller's keyspace tracker skips unchanged peers
                      ("E8", cfgc(WithTracker=True, WithRestart=True, MaxExch=4))],
     },
+    "C05": {   # nothing is replicated directly: every difference is repaired by exchanges
+        "quick": [("X1", cfgc(NoDirect=True, WithBulk=True, MaxOps=2, MaxExch=4))],
+        "thorough": [("X1", cfgc(NoDirect=True, WithBulk=True, MaxOps=2, MaxExch=4)),
+                     ("X2", cfgc(NoDirect=True, WithBulk=True, MaxOps=3, MaxExch=3))],
+    },
     "C08": {
         "quick": [("P1", cfgc(F=2, Times={0, 1, 2, 3}, MaxSkew=1, MaxExch=2, WithPurge=True))],
         "thorough": [("P1", cfgc(F=2, Times={0, 1, 2, 3}, MaxSkew=1, MaxExch=2, WithPurge=True)),
@@ -48,6 +53,11 @@ SIMULATED = {
                      ("S2", cfgc(MaxOps=4, MaxDup=1, MaxExch=8, WithBatch=True, WithBulk=True, WithRestart=True, MinOpsToEmit=3), 20000, 120, 6000),
                      ("S3", cfgc(Nodes={1, 2, 3}, CNodes={1, 2, 3}, MaxOps=3, MaxExch=12, WithBatch=True, MinOpsToEmit=2), 20000, 140, 6000)],
     },
+    "C05": {
+        "quick": [("SX", cfgc(NoDirect=True, WithBulk=True, MaxOps=4, MaxExch=8, MinOpsToEmit=3), 2500, 100, 2500)],
+        "thorough": [("SX", cfgc(NoDirect=True, WithBulk=True, MaxOps=4, MaxExch=8, MinOpsToEmit=3), 25000, 100, 20000),
+                     ("SX3", cfgc(Nodes={1, 2, 3}, CNodes={1, 2, 3}, NoDirect=True, WithBulk=True, MaxOps=3, MaxExch=14, MinOpsToEmit=2), 15000, 160, 6000)],
+    },
     "C08": {
         "quick": [("SP", cfgc(F=2, Times={0, 1, 2, 3, 4}, MaxSkew=1, MaxOps=4, MaxExch=6, WithBatch=True, WithPurge=True, MinOpsToEmit=3), 1500, 100, 3000)],
         "thorough": [("SP", cfgc(F=2, Times={0, 1, 2, 3, 4}, MaxSkew=1, MaxOps=4, MaxExch=6, WithBatch=True, WithPurge=True, MinOpsToEmit=3), 20000, 100, 25000),
@@ -55,7 +65,8 @@ SIMULATED = {
                                   WithPurge=True, MinOpsToEmit=3), 15000, 160, 6000)],
     },
 }
-ACTOR_PROPS = {"C01": ["C04"], "C08": ["C08"]}
+COARSE = {"quick": 360, "thorough": 6000}
+ACTOR_PROPS = {"C01": ["C04", "C05"], "C05": ["C05"], "C08": ["C08"]}
 INVARIANTS = ["C01_Converges", "C02_Agree", "C05_NothingLeft", "C01_TrackerFixpoint"]
 
 
@@ -91,8 +102,28 @@ def _simulated(ctx, binary, name, c, num, depth, max_replay):
     vlib.run_harness(ctx, [binary, "replay-cluster", "--input", out_file, "--out", out, "--f", str(c["F"]),
                            "--nodes", ",".join(map(str, sorted(c["CNodes"]))), "--max", str(max_replay)], timeout=3000,
                      env={"DATACAKE_VERIF_TRACE_DIR": actors_dir})
-    os.remove(out_file)
     rep = vlib.load_json(out)
+    # (G, coarse) the same behaviours with every repair exchange executed by the real poller code in one piece
+    # (get_keyspace_diff + begin_keyspace_sync / a repair_members round); each costs the poller's 250 ms progress tick,
+    # so slices run in parallel processes
+    n_coarse = COARSE[ctx.tier]
+    procs = 12
+    per = max(1, n_coarse // procs)
+
+    def coarse_slice(i):
+        o = ctx.path("coarse_%s_%d.json" % (name, i))
+        vlib.run_harness(ctx, [binary, "replay-cluster", "--input", out_file, "--out", o, "--f", str(c["F"]), "--mode", "coarse",
+                               "--nodes", ",".join(map(str, sorted(c["CNodes"]))), "--max", str(per * procs),
+                               "--slice", "%d/%d" % (i, procs)], timeout=3000, env={"DATACAKE_VERIF_TRACE_DIR": actors_dir})
+        return vlib.load_json(o)
+    with concurrent.futures.ThreadPoolExecutor(max_workers=procs) as pool:
+        parts = list(pool.map(coarse_slice, range(procs)))
+    rep["coarse"] = {"behaviours": sum(x["behaviours"] for x in parts), "steps": sum(x["steps"] for x in parts),
+                     "violation_count": sum(x["violation_count"] for x in parts)}
+    rep["violations"] = rep["violations"] + [dict(v, mode="coarse: exchanges run by the real poller in one piece")
+                                             for x in parts for v in x["violations"]]
+    rep["violation_count"] += rep["coarse"]["violation_count"]
+    os.remove(out_file)
     # (V) what every keyspace actor of the real nodes did during the replay, against Trace_KeyspaceActor.tla
     rep["actor_trace"] = actor_traces.validate(ctx, actor_trace.files_in(actors_dir), "actors_" + name, ACTOR_PROPS[ctx.prop],
                                                max_events=40000 if ctx.tier == "quick" else 400000)
@@ -111,8 +142,9 @@ def run_all(ctx, prop):
         futs = [pool.submit(_exhaustive, ctx, n, c, workers) for n, c in ex]
         for n, c, num, depth, mx in SIMULATED[prop][ctx.tier]:
             r = _simulated(ctx, binary, n, c, num, depth, mx)
-            ctx.log("simulated %s: %d converged behaviours replayed on real nodes (%d steps): %d violations, drift %d" % (
-                n, r["rep"]["behaviours"], r["rep"]["steps"], r["rep"]["violation_count"], r["rep"]["drift"]))
+            ctx.log("simulated %s: %d converged behaviours replayed on real nodes step by step (%d steps) and %d with whole exchanges "
+                    "run by the real poller: %d violations, drift %d" % (
+                n, r["rep"]["behaviours"], r["rep"]["steps"], r["rep"]["coarse"]["behaviours"], r["rep"]["violation_count"], r["rep"]["drift"]))
             results.append(r)
         for f in concurrent.futures.as_completed(futs):
             r = f.result()
@@ -134,7 +166,8 @@ def judge(ctx, results, props):
                 real_found = True
                 if len(ctx.violations) < 4:
                     ctx.violations.append({"engine": "h-ec replay-cluster", "config": r["name"], "constants": r["constants"],
-                                           "why": v["why"][:6], "behaviour": v["behaviour"], "expect": v.get("expect"), "reads": v.get("reads")})
+                                           "why": v["why"][:6], "behaviour": v["behaviour"], "expect": v.get("expect"), "reads": v.get("reads"),
+                                           "mode": "coarse" if v.get("mode") else "fine"})
         samples += r["rep"]["samples"][:2]
     model_bad = [r["name"] for r in results if (r["kind"] == "exhaustive" and not r["ok"]) or (r["kind"] == "simulated" and r["violated"])]
     if model_bad and not real_found:
@@ -151,6 +184,6 @@ def judge(ctx, results, props):
                                     depth=r["mc"]["depth"], wall_s=r["mc"]["wall_s"]) for r in ex],
         "simulated_configs": [dict(name=r["name"], constants=r["constants"], traces=r["num"], depth=r["depth"],
                                    behaviours_replayed=r["rep"]["behaviours"], steps=r["rep"]["steps"],
-                                   step_kinds=r["rep"]["step_kinds"], actor_trace=r["rep"].get("actor_trace")) for r in si],
+                                   step_kinds=r["rep"]["step_kinds"], whole_exchange_behaviours=r["rep"]["coarse"]["behaviours"], actor_trace=r["rep"].get("actor_trace")) for r in si],
         "checker_cmd": ex[0]["mc"]["cmd"] if ex else "",
     }
